@@ -80,8 +80,18 @@ HOSTILE = [
     ('verbatim-open', '\\documentclass{article}\\begin{document}Wq1x \\begin{verbatim}\nWq2x'),
     ('appendix', '\\documentclass{article}\\begin{document}\\section{Wq1x}\\appendix\\section{Wq2x}\\end{document}'),
     ('amsmath', '\\documentclass{article}\\usepackage{amsmath}\\begin{document}\\begin{align}a&=b\\\\c&=d\\end{align}\\end{document}'),
+    # base classes whose derived classes appear in the probes (per-class memos must not be inherited by the subclass)
+    ('eqnarray-star', '\\documentclass{article}\\begin{document}\\begin{eqnarray*}a&=&b\\\\c&=&d\\end{eqnarray*}Wq1x\\end{document}'),
+    ('tabular-array', '\\documentclass{article}\\begin{document}\\begin{tabular}{ll}Wq1x&Wq2x\\\\Wq3x&Wq4x\\end{tabular} $\\begin{array}{c}a\\\\b\\end{array}$\\end{document}'),
+    ('bibliography', '\\documentclass{article}\\begin{document}Wq1x\\cite{zk}\\begin{thebibliography}{9}\\bibitem{zk}Wq2x\\end{thebibliography}\\end{document}'),
+    ('itemize-only', '\\documentclass{article}\\begin{document}\\begin{itemize}\\item Wq1x\\end{itemize}\\begin{description}\\item[Wq2x] Wq3x\\end{description}\\end{document}'),
 ]
 PROBES = [
+    '\\documentclass{article}\\begin{document}\\begin{eqnarray}a&=&b\\label{r1}\\\\c&=&d\\label{r2}\\end{eqnarray}Wq1x \\ref{r1} \\ref{r2}\\end{document}',
+    '\\documentclass{article}\\usepackage{longtable}\\begin{document}\\begin{longtable}{ll}Wq1x&Wq2x\\\\\\endhead Wq3x&Wq4x\\\\Wq5x&Wq6x\\end{longtable}\\end{document}',
+    '\\documentclass{article}\\usepackage{amsmath}\\begin{document}\\begin{align}a&=b\\label{a1}\\\\c&=d\\label{a2}\\end{align}\\begin{gather}x\\\\y\\end{gather}\\ref{a1} \\ref{a2}\\end{document}',
+    '\\documentclass{article}\\usepackage{natbib}\\begin{document}Wq1x\\citep{zk}\\begin{thebibliography}{9}\\bibitem[A(2000)]{zk}Wq2x\\end{thebibliography}\\end{document}',
+    '\\documentclass{article}\\begin{document}\\begin{enumerate}\\item Wq1x\\label{i1}\\begin{enumerate}\\item Wq2x\\label{i2}\\end{enumerate}\\end{enumerate}\\ref{i1} \\ref{i2}\\end{document}',
     '\\documentclass{article}\\begin{document}Wq1x $x^2$ Wq2x \\begin{enumerate}\\item Wq3x \\begin{enumerate}\\item Wq4x\\end{enumerate}\\end{enumerate}\\end{document}',
     '\\documentclass{book}\\usepackage{makeidx}\\makeindex\\begin{document}\\chapter{Wq1x}Wq2x\\index{b}\\section{Wq3x}\\begin{equation}y\\end{equation}\\printindex\\end{document}',
     '\\documentclass{article}\\begin{document}\\the\\parindent Wq1x \\begin{tabular}{lc}Wq2x&Wq3x\\end{tabular} \\section{Wq4x}\\label{s}\\ref{s}\\end{document}',
